@@ -85,6 +85,12 @@ def run(chk: Check) -> None:
     _reader_agreement(chk, schema, pf, msgs)
     _enums(chk, schema, pf)
     _header(chk)
+    # (AuxData, data): exempt from the generic name rule, decided by the raw-reuse rule
+    from .c14 import _to_protobuf, _typestate
+    sub = chk.sub()
+    _typestate(sub, chk.repo.cls("AuxData"))
+    _to_protobuf(sub, chk.repo.cls("AuxData"))
+    chk.adopt(sub, None, "R02.2")
 
 
 # ---------------------------------------------------------------------------
